@@ -7,8 +7,9 @@
 -/
 import Gzx.Proofs.ECILemmas
 import Gzx.Proofs.GuessLemmas
+import Gzx.Proofs.QRSegments
 namespace Gzx.Properties.C15
-open Gzx Gzx.QRDec Gzx.ECI
+open Gzx Gzx.QRDec Gzx.ECI Gzx.QRPack
 
 /-! ## registry -/
 
@@ -276,5 +277,38 @@ theorem hint_honoured (reg : Registry) (bytes : List Nat) (n : String) (iana : N
 
 theorem hint_object_honoured (reg : Registry) (bytes : List Nat) (id : String) :
     guessCharset reg bytes (.object id) = .ok (.object id) := rfl
+
+/-! ## header + payload -/
+
+/-- `eci_roundtrip` (up to the codec): with a CHARACTER_SET hint naming entry `e` by any of its names, the
+    encoder's header followed by a byte segment carrying the bytes `bs` (the charset's encoding of the
+    text) and a terminator parses to exactly one text segment `(charset of e, bs)` — whatever
+    `guessCharset` would have said about `bs` and whatever decode-side hint is given.  With the codec
+    assumption dec_e (enc_e t) = t the text returns. -/
+theorem eci_roundtrip (reg : Registry) (hc : consistent reg = true) (e : Entry) (he : e ∈ reg)
+    (n : String) (hn : n ∈ e.allNames) (isStr : Bool) (ver : Nat) (hint : Hint)
+    (bs : List Nat) (hb : ∀ b ∈ bs, b < 256) (hlen : bs.length < 2 ^ countWidth 2 ver)
+    (tail : List Bool) (ht : Terminated tail) :
+    ∃ hdr, encEciHeader reg (some ⟨n, isStr⟩) .byte = .ok hdr ∧
+      parseStream reg (hdr ++ (segment 4 (countWidth 2 ver) bs.length (packBytes bs) ++ tail)) ver hint =
+        .ok ⟨[.text (.named e.name) bs], [bs], -1, -1, 2⟩ := by
+  obtain ⟨_, _, ⟨v, hv, hlt, hmem⟩, _⟩ := registry_consistent reg hc e he
+  have hl : lookupValue reg v = some e := (lookup_of_consistent reg hc e he v hmem).2
+  refine ⟨natToBits 4 7 ++ natToBits 8 v, ?_, ?_⟩
+  · rw [(enc_header_carries_designator reg hc e he n hn isStr).2]
+    simp [appendECI, hv, bind, Except.bind]
+  · unfold parseStream
+    rw [List.append_assoc]
+    have h1 := parseLoop_eci reg ver hint
+      (natToBits 4 7 ++ (natToBits 8 v ++ (segment 4 (countWidth 2 ver) bs.length (packBytes bs) ++ tail))).length {}
+      1 v (segment 4 (countWidth 2 ver) bs.length (packBytes bs) ++ tail) (Or.inl ⟨rfl, hlt⟩)
+    simp only [encodeECIValue, if_true, hl, show v < 900 by omega] at h1
+    rw [h1]
+    obtain ⟨g, hg⟩ : ∃ g, (natToBits 4 7 ++ (natToBits 8 v ++ (segment 4 (countWidth 2 ver) bs.length (packBytes bs) ++ tail))).length = g + 1 + 1 := by
+      refine ⟨(natToBits 4 7 ++ (natToBits 8 v ++ (segment 4 (countWidth 2 ver) bs.length (packBytes bs) ++ tail))).length - 2, ?_⟩
+      simp [segment]; omega
+    rw [hg, parseLoop_byte_eci reg ver hint (g + 1) _ e rfl bs hb hlen tail,
+      parseLoop_terminated reg ver hint g _ tail ht]
+    rfl
 
 end Gzx.Properties.C15
